@@ -29,7 +29,15 @@ type trimCase struct {
 	P *gen.Prof
 	C rep.Conf
 	T Trim
+	// Paths: 0 none; 1 -source_path=/my/proj (prefix guessed from the base name); 2 -trim_path=/r/proj with
+	// -source_path=/my/x. The profile's file names get a prefix (PathSel per function) that the options remove.
+	Paths   int
+	PathSel []bool
 }
+
+// pathPrefixes[mode][sel] is put in front of a file name; pathRemain is what the documented trimming leaves of it
+var pathPrefixes = map[int][2]string{1: {"/r/proj/", "/r/proj/x/proj/"}, 2: {"/r/proj/", "/r/proj/q/x/"}}
+var pathRemain = map[int][2]string{1: {"", "x/proj/"}, 2: {"", "q/x/"}}
 
 var fixedFractions = []float64{0, 1e-9, 0.1, 0.5, 1, 2}
 
@@ -41,7 +49,12 @@ func genCase(t *rapid.T) *trimCase {
 	tr := Trim{NodeCount: rapid.SampledFrom([]int{-1, 0, 1, 2, 3, 4, 5, 8}).Draw(t, "nodecount"), NFMode: rapid.IntRange(0, 6).Draw(t, "nfmode"),
 		NFEntry: rapid.IntRange(0, 7).Draw(t, "nfentry"), NFDelta: rapid.IntRange(-1, 1).Draw(t, "nfdelta"),
 		EFMode: rapid.IntRange(0, 6).Draw(t, "efmode"), EFEntry: rapid.IntRange(0, 7).Draw(t, "efentry"), SortCum: rapid.Bool().Draw(t, "sortcum")}
-	return &trimCase{P: p, C: c, T: tr}
+	tc := &trimCase{P: p, C: c, T: tr}
+	if rapid.IntRange(0, 3).Draw(t, "paths") == 0 {
+		tc.Paths = rapid.IntRange(1, 2).Draw(t, "pathmode")
+		tc.PathSel = rapid.SliceOfN(rapid.Bool(), 8, 8).Draw(t, "pathsel")
+	}
+	return tc
 }
 
 func fraction(mode, entry, delta int, rows []model.Row, total int64) float64 {
@@ -75,6 +88,26 @@ func rowKey(r model.Row) string { return fmt.Sprintf("%s\x00%d\x00%d", r.Name, r
 func check(c *trimCase, o *vk.Obs) []string {
 	var e vk.Errs
 	p := c.P.Build()
+	pRun := p
+	if c.Paths != 0 {
+		// pprof gets the prefixed file names plus the options that remove the prefix; the reference model gets
+		// what the documented trimming leaves (done once: the name of an entry does not depend on how often the
+		// graph is rebuilt while trimming)
+		pRun = c.P.Build()
+		for i, f := range pRun.Function {
+			if f.Filename == "" {
+				continue
+			}
+			sel := 0
+			if c.PathSel[i%len(c.PathSel)] {
+				sel = 1
+			}
+			rest := strings.TrimLeft(f.Filename, "/")
+			f.Filename = pathPrefixes[c.Paths][sel] + rest
+			p.Function[i].Filename = pathRemain[c.Paths][sel] + rest
+		}
+		o.Label(fmt.Sprintf("paths:%d", c.Paths))
+	}
 	idx, ok := rep.ResolveIndex(p, c.C.SampleIndex)
 	if !ok {
 		return nil
@@ -92,7 +125,13 @@ func check(c *trimCase, o *vk.Obs) []string {
 		fl["nodefraction"] = strconv.FormatFloat(nf, 'g', -1, 64)
 		fl["edgefraction"] = strconv.FormatFloat(ef, 'g', -1, 64)
 		fl["flat"], fl["cum"] = fmt.Sprint(!c.T.SortCum), fmt.Sprint(c.T.SortCum)
-		r := pp.Run(pp.Req{Flags: fl, Args: []string{"src"}, Sources: map[string]*pp.Source{"src": {Prof: p}}})
+		switch c.Paths {
+		case 1:
+			fl["source_path"] = "/my/proj"
+		case 2:
+			fl["trim_path"], fl["source_path"] = "/r/proj", "/my/x"
+		}
+		r := pp.Run(pp.Req{Flags: fl, Args: []string{"src"}, Sources: map[string]*pp.Source{"src": {Prof: pRun}}})
 		return r, r.Out("out")
 	}
 	ru, uo := run(false)
